@@ -5,6 +5,7 @@ static fields and methods, generic classes, destructors; main builds objects, ca
 variables of every (static type, dynamic type) pair, reassigns, nests scopes, destroys.
 Every constructor, initialiser, method and destructor echoes a tag, so the whole order is observable.
 Field names are drawn from the same pool as locals and parameters on purpose."""
+import copy
 import json
 import random
 
@@ -32,11 +33,30 @@ class ObjGen:
         if extra:
             self.make_class("D", "A")
         self.funcs = [self.tag_fn()]
+        self.holder = None
+        if r.random() < 0.5:
+            self.make_holder()
         if self.generics and r.random() < 0.5:
             self.make_generics()
         else:
             self.gen_classes = []
         return self
+
+    def make_holder(self):
+        """a class whose fields are references of declared class st: what is stored there is seen through st (overloads!)
+        while virtual calls still reach the stored object's own class"""
+        r = self.r
+        sts = r.sample(self.order, min(len(self.order), r.randint(1, 2)))
+        fields = [Field(C(st), "ref" + st) for st in sts]
+        static_st = sts[0] if r.random() < 0.4 else None
+        if static_st:
+            fields.append(Field(C(static_st), "sref", static=True))
+        methods = []
+        for st in sts:
+            methods.append(Method("pick" + st, [], C(st), [Ret(Var("ref" + st))]))
+            methods.append(Method("hold" + st, [Param(C(st), "p")], VOID, [Expr(FAsg(This(), "ref" + st, Var("p")))]))
+        dtor = [Echo(S("~Hold"))] if self.dtors and r.random() < 0.5 else []
+        self.holder = {"cls": Class("Hold", "", fields, methods, [Ctor([], [Echo(S("Hold()"))])], dtor), "sts": sts, "static": static_st}
 
     def tag_fn(self):
         return Func("tag", [Param(P("str"), "w"), Param(P("int"), "v")], P("int"), [Echo(Bin("+", Var("w"), Var("v"))), Ret(Var("v"))])
@@ -206,7 +226,8 @@ class ObjGen:
         return New(c, *[I(self.r.randint(1, 9)) for _ in ct["params"]])
 
     def method_calls(self, var, static, dyn):
-        """calls on `var` (static type `static`) that are legal for the static type"""
+        """calls on `var` (a variable name or a receiver expression of static type `static`) that are legal for the static type"""
+        recv = Var(var) if isinstance(var, str) else var
         r = self.r
         out = []
         visible = {}
@@ -233,13 +254,13 @@ class ObjGen:
                     if isinstance(o, tuple):
                         out.append(("objarg", name, o[1]))
                     else:
-                        out.append(Echo(MCall(Var(var), "f", o)))
+                        out.append(Echo(MCall(copy.deepcopy(recv), "f", o)))
             elif name in ("who", "describe"):
-                out.append(Echo(MCall(Var(var), name)))
+                out.append(Echo(MCall(copy.deepcopy(recv), name)))
             elif name == "value":
-                out.append(Echo(MCall(Var(var), "value", I(r.randint(1, 5)))))
+                out.append(Echo(MCall(copy.deepcopy(recv), "value", I(r.randint(1, 5)))))
             elif name == "set":
-                out.append(Expr(MCall(Var(var), "set", I(r.randint(30, 39)))))
+                out.append(Expr(MCall(copy.deepcopy(recv), "set", I(r.randint(30, 39)))))
         return out
 
     def main(self):
@@ -251,6 +272,16 @@ class ObjGen:
         for fn in r.sample(POOL, 2):
             body.append(Decl(P("int"), fn, I(r.randint(50, 59))))
         loc_ints = [s["n"] for s in body]
+        hfields = {}       # static class of a holder field -> dynamic class of what it holds (None: null)
+        if self.holder:
+            body.append(Decl(C("Hold"), "hd", New("Hold")))
+
+        def field_exprs(st):
+            """receiver / argument expressions of static class st that go through the holder"""
+            if not self.holder or hfields.get(st) is None:
+                return []
+            out = [Fld(Var("hd"), "ref" + st), MCall(Var("hd"), "pick" + st)]
+            return out
 
         def declare(into, scope_vars):
             st = r.choice(self.order)
@@ -273,7 +304,10 @@ class ObjGen:
                 if isinstance(c, tuple):
                     # object argument with a chosen static type: use an existing variable of that static type or a new object
                     cands = [w for w, (s2, d2) in scope_vars.items() if s2 == c[2] and d2 is not None]
-                    if cands and r.random() < 0.6:
+                    fcands = field_exprs(c[2])
+                    if fcands and r.random() < 0.5:
+                        into.append(Echo(MCall(Var(v), "f", copy.deepcopy(r.choice(fcands)))))
+                    elif cands and r.random() < 0.6:
                         into.append(Echo(MCall(Var(v), "f", Var(r.choice(cands)))))
                     else:
                         into.append(Echo(MCall(Var(v), "f", self.new_expr(c[2]))))
@@ -283,6 +317,38 @@ class ObjGen:
         steps = r.randint(4, 9)
         for _ in range(steps):
             roll = r.random()
+            if self.holder and r.random() < 0.3:
+                st = r.choice(self.holder["sts"])
+                if hfields.get(st) is None or r.random() < 0.4:
+                    # store: through the field, through a method parameter, or from a variable of a fitting static class
+                    dyn = r.choice(self.dyn_classes_for(st))
+                    fits = [w for w, (s2, d2) in live.items() if d2 is not None and st in self.ancestors(s2)]
+                    if fits and r.random() < 0.4:
+                        w = r.choice(fits)
+                        src, dyn = Var(w), live[w][1]
+                    else:
+                        src = self.new_expr(dyn)
+                    body.append(Expr(FAsg(Var("hd"), "ref" + st, src)) if r.random() < 0.5 else Expr(MCall(Var("hd"), "hold" + st, src)))
+                    hfields[st] = dyn
+                else:
+                    fe = r.choice(field_exprs(st))
+                    calls = self.method_calls(fe, st, hfields[st])
+                    r.shuffle(calls)
+                    for c in calls[:2]:
+                        if isinstance(c, tuple):
+                            arg = r.choice(field_exprs(c[2]) or [self.new_expr(c[2])])
+                            body.append(Echo(MCall(copy.deepcopy(fe), "f", copy.deepcopy(arg))))
+                        else:
+                            body.append(c)
+                if self.holder["static"] and r.random() < 0.3:
+                    sst = self.holder["static"]
+                    sd = r.choice(self.dyn_classes_for(sst))
+                    body.append(Expr(SFAsg("Hold", "sref", self.new_expr(sd))))
+                    for c in self.method_calls(SFld("Hold", "sref"), sst, sd)[:2]:
+                        if not isinstance(c, tuple):
+                            body.append(c)
+                    body.append(Expr(SFAsg("Hold", "sref", Null())))
+                continue
             if roll < 0.3 or not live:
                 declare(body, live)
             elif roll < 0.65:
@@ -388,7 +454,7 @@ class ObjGen:
     def program(self):
         self.build()
         main = self.main()
-        classes = [self.classes[c] for c in self.order] + self.gen_classes
+        classes = [self.classes[c] for c in self.order] + ([self.holder["cls"]] if self.holder else []) + self.gen_classes
         funcs = self.funcs + [main]
         return Program(funcs, classes)
 
